@@ -218,6 +218,26 @@ def huge_collections(thorough):
     far = [(9000 + k, (200 + (k * 31) % 300, 200 + (k * 67) % 290, 203 + (k * 31) % 300,
                        201 + (k * 67) % 290)) for k in range(1000)]
     out.append(("strokes", strokes + far, 1400))
+    # a third layout: a crowd of frames that all span the middle of the page, and one, two or
+    # three small marks in different corners - at every node one quadrant holds all boxes but a
+    # few.  Crowd sizes around the round numbers and around 1/r and 1/(1-r) for every share r
+    # written in the index's source (a rule about "nearly all" of a node's boxes).
+    sizes = {5, 30, 99, 100, 101, 150, 198, 199, 200, 201, 250, 400, 1000} | \
+        ({2500} if thorough else set())
+    for ratio in core.harvest_ratios(_lib()):
+        for count in (1 / ratio, 1 / (1 - ratio)):
+            if count < 20000:
+                sizes |= {int(count) + d for d in (-2, -1, 0, 1, 2, 50)} | {2 * int(count) + 1}
+    corners = [(1, 97, 3, 99), (97, 1, 99, 3), (1, 1, 2, 2), (96, 96, 99, 98)]
+    for n_crowd in sorted(n for n in sizes if n >= 2):
+        crowd = [(100 + k, (40 - k % 7, 40 - k % 5, 60 + k % 3, 60 + k % 11)) for k in range(n_crowd)]
+        for n_marks in (1, 2, 3, 4):
+            marks = [("mark%d" % m, corners[m]) for m in range(n_marks)]
+            out.append((f"crowd of {n_crowd} after {n_marks} marks", marks + crowd, n_marks + 2))
+            if n_crowd <= 450:
+                out.append((f"crowd of {n_crowd} around {n_marks} marks",
+                            crowd[: n_crowd // 2] + marks + crowd[n_crowd // 2:],
+                            n_crowd // 2 + n_marks))
     return out
 
 
